@@ -49,6 +49,8 @@ func vEnv(k string, d int) int {
 // (followed by int3 padding, as the linker lays functions out) and goom's REAL fixOriginFuncToTrampoline relocates them
 // into a "trampoline" slot (filler followed by int3 padding) through memory.WriteTo; the written bytes are read back.
 type arena struct {
+	alt        *arena // second placeholder area BELOW the origins; records alternate between the two
+	flip       bool
 	org, trp   []byte
 	orgOff     int
 	trpOff     int
@@ -69,8 +71,10 @@ func newArena() *arena {
 	a := &arena{}
 	a.org = mm(0x20000000, 192<<20)
 	a.orgB = uintptr(unsafe.Pointer(&a.org[0]))
-	a.trp = mm(a.orgB+0x30000000, 64<<20) // trampolines about 768 MiB above the origins (relative jumps both ways)
+	a.trp = mm(a.orgB+0x30000000, 64<<20) // placeholders above the origins
 	a.trpB = uintptr(unsafe.Pointer(&a.trp[0]))
+	low := mm(a.orgB-0x18000000, 64<<20) // and below: displacements of both signs
+	a.alt = &arena{trp: low, trpB: uintptr(unsafe.Pointer(&low[0]))}
 	return a
 }
 
@@ -79,6 +83,18 @@ func (a *arena) relocate(name string, code []byte, have int, far bool) relocRec 
 	size := len(code)
 	if have > size {
 		have = size
+	}
+	// alternate between the placeholder area above and the one below the origins
+	a.flip = !a.flip
+	if a.flip && a.alt != nil {
+		a.trp, a.alt.trp = a.alt.trp, a.trp
+		a.trpB, a.alt.trpB = a.alt.trpB, a.trpB
+		a.trpOff, a.alt.trpOff = a.alt.trpOff, a.trpOff
+		defer func() {
+			a.trp, a.alt.trp = a.alt.trp, a.trp
+			a.trpB, a.alt.trpB = a.alt.trpB, a.trpB
+			a.trpOff, a.alt.trpOff = a.alt.trpOff, a.trpOff
+		}()
 	}
 	// origin slot: code + 32 bytes of int3 padding, 16-aligned
 	o := (a.orgOff + 15) &^ 15
